@@ -2,6 +2,7 @@ package op
 
 import (
 	"errors"
+	"sort"
 
 	"github.com/berquerant/crd/util"
 	"gopkg.in/yaml.v3"
@@ -53,6 +54,10 @@ func GetDynamicSignStrings() []string {
 	for k := range stringDynamicSignMap {
 		ss = append(ss, k)
 	}
+	// from soft to loud, and the same on every run
+	sort.Slice(ss, func(i, j int) bool {
+		return stringDynamicSignMap[ss[i]].Velocity() < stringDynamicSignMap[ss[j]].Velocity()
+	})
 	return ss
 }
 
